@@ -243,9 +243,17 @@ def sample(ctx, budget=1.0, hint=None, broken=None):
             tstar = (lo_ + hi_) / 2
             from scipy.integrate import quad as _quad
             f_ = lambda x_: abs(seg.derivative(x_))
-            ref = _quad(f_, 0, tstar, epsabs=1e-13, epsrel=1e-13, limit=2000)[0] + _quad(f_, tstar, tt, epsabs=1e-13, epsrel=1e-13, limit=2000)[0]
-            lib = seg.length(0, tt)
-            return abs(lib - ref) > 1e-9 * (abs(ref) + 1e-300)
+            # the returned parameter is where the bisection ended up; the defect is that the library's length(0, x) is wrong for SOME x
+            # just beyond the cusp (and right for others), which is what sends the bisection astray: probe a few of them
+            base_ = _quad(f_, 0, tstar, epsabs=1e-13, epsrel=1e-13, limit=2000)[0]
+            for x_ in [tt] + [tstar + d_ for d_ in (1e-5, 3e-5, 1e-4, 3e-4, 5e-4, 1e-3, 1.1e-3, 2e-3, 5e-3, 1e-2)]:
+                if x_ >= 1:
+                    continue
+                ref = base_ + _quad(f_, tstar, x_, epsabs=1e-13, epsrel=1e-13, limit=2000)[0]
+                lib = seg.length(0, x_)
+                if abs(lib - ref) > 1e-9 * (abs(ref) + 1e-300):
+                    return True
+            return False
         except Exception:
             return False
 
